@@ -85,3 +85,16 @@ Theorem C16_after_mount_refuted :
   /\ C16.step_spec ex_cfg (w3 conf_par) v3 = false.
 Proof. exact C16_after_mount_refuted_foreign_target. Qed.
 Print Assumptions C16_after_mount_refuted.
+
+(* ---- the regenerated constants this property's predicate / model rest on, against literals.
+   Gen/Consts.v is rewritten from the source of /repo on every run, so without this theorem an
+   edit of one of these constants would move model, predicate and code together and nothing
+   would be reported.  Used by: the predicate C16.spec reads layers from disk through Model/Layers.v (layerconfig_path).
+   "frozen" = no manual text gives the value; it is the value of the reviewed tree. *)
+From LC Require Import Gen.Consts Proofs.C16PinsP.
+Local Open Scope string_scope.
+Theorem C16_constants_pinned :
+  (* doc/layercake_directories.adoc, manual page LAYER DIRECTORY: "layerconfig" *)
+  D_LayerconfigFile = bs "layerconfig".
+Proof. exact c16_constants_pinned. Qed.
+Print Assumptions C16_constants_pinned.
